@@ -72,7 +72,9 @@ pub struct TrioArc<T> { p: std::marker::PhantomData<T> }
 impl<T> TrioArc<T> {
     pub uninterp spec fn view(&self) -> T;
     #[verifier::external_body]
-    pub fn clone(this: &Self) -> (r: Self) ensures r@ == this@ { unimplemented!() }
+    pub fn clone(this: &Self) -> (r: Self) ensures r == *this { unimplemented!() }
+    #[verifier::external_body]
+    pub fn new(data: T) -> (r: Self) ensures r@ == data { unimplemented!() }
 }
 impl<T> std::ops::Deref for TrioArc<T> {
     type Target = T;
@@ -80,19 +82,70 @@ impl<T> std::ops::Deref for TrioArc<T> {
     fn deref(&self) -> (r: &T) ensures *r == self@ { unimplemented!() }
 }
 
+/// src/common/concurrent/entry_info.rs (atomics and a Mutex, shared through `&self`): ASSUMED here; the sequential meaning of
+/// every accessor is checked on the real code by the Kani harnesses `entry_info_*` (complete for one thread). `sp_*()` = what
+/// the slot holds when this call reads it; a setter through `&self` cannot appear in a postcondition, what it gives is the FACT
+/// that this value has been stored (`sp_wrote_*`, uninterpreted, only ever established by the setter itself).
 #[verifier::external_body]
 #[verifier::reject_recursive_types(K)]
 pub struct EntryInfo<K> { k: std::marker::PhantomData<K> }
+impl<K> EntryInfo<K> {
+    pub uninterp spec fn sp_admitted(&self) -> bool;
+    pub uninterp spec fn sp_dirty(&self) -> bool;
+    pub uninterp spec fn sp_w(&self) -> u32;
+    pub uninterp spec fn sp_ta(&self) -> Option<Instant>;
+    pub uninterp spec fn sp_tm(&self) -> Option<Instant>;
+    pub uninterp spec fn sp_wrote_dirty(&self, v: bool) -> bool;
+    pub uninterp spec fn sp_wrote_w(&self, w: u32) -> bool;
+    pub uninterp spec fn sp_wrote_ta(&self, t: Instant) -> bool;
+    pub uninterp spec fn sp_wrote_tm(&self, t: Instant) -> bool;
+//@@ SIG file=src/common/concurrent/entry_info.rs owner=EntryInfo name=new
+    #[verifier::external_body]
+    pub fn new(timestamp: Instant, policy_weight: u32) -> (r: Self)
+        ensures !r.sp_admitted(), r.sp_dirty(), r.sp_w() == policy_weight, r.sp_ta() == Some(timestamp), r.sp_tm() == Some(timestamp)
+    { unimplemented!() }
+//@@ END
+//@@ SIG file=src/common/concurrent/entry_info.rs owner=EntryInfo name=set_dirty
+    #[verifier::external_body]
+    pub fn set_dirty(&self, value: bool) ensures self.sp_wrote_dirty(value) { unimplemented!() }
+//@@ END
+//@@ SIG file=src/common/concurrent/entry_info.rs owner=EntryInfo name=set_policy_weight
+    #[verifier::external_body]
+    pub fn set_policy_weight(&self, size: u32) ensures self.sp_wrote_w(size) { unimplemented!() }
+//@@ END
+//@@ SIG file=src/common/concurrent/entry_info.rs owner=EntryInfo name=policy_weight
+    #[verifier::external_body]
+    pub fn policy_weight(&self) -> (r: u32) ensures r == self.sp_w() { unimplemented!() }
+//@@ END
+    /// `impl AccessTime for EntryInfo`
+    #[verifier::external_body]
+    pub fn set_last_accessed(&self, timestamp: Instant) ensures self.sp_wrote_ta(timestamp) { unimplemented!() }
+    #[verifier::external_body]
+    pub fn set_last_modified(&self, timestamp: Instant) ensures self.sp_wrote_tm(timestamp) { unimplemented!() }
+}
+/// src/common/concurrent.rs (its accessors are proved on the real text in unit `sync_maint`)
 #[verifier::reject_recursive_types(K)]
-pub struct ValueEntry<K, V> { pub value: V, pub info: EntryInfo<K> }
+pub struct ValueEntry<K, V> { pub value: V, pub info: TrioArc<EntryInfo<K>> }
 impl<K, V> ValueEntry<K, V> {
-    /// the timestamps are atomics shared with the list nodes: "what this call reads" is an uninterpreted function of the entry
-    pub uninterp spec fn ta(&self) -> Option<Instant>;
-    pub uninterp spec fn tm(&self) -> Option<Instant>;
-    pub uninterp spec fn dirty(&self) -> bool;
+    /// the timestamps are atomics shared with the list nodes: "what this call reads"
+    pub open spec fn ta(&self) -> Option<Instant> { self.info@.sp_ta() }
+    pub open spec fn tm(&self) -> Option<Instant> { self.info@.sp_tm() }
+    pub open spec fn dirty(&self) -> bool { self.info@.sp_dirty() }
 //@@ SIG file=src/common/concurrent.rs owner=ValueEntry name=is_dirty
     #[verifier::external_body]
     pub fn is_dirty(&self) -> (r: bool) ensures r == self.dirty() { unimplemented!() }
+//@@ END
+//@@ SIG file=src/common/concurrent.rs owner=ValueEntry name=new
+    #[verifier::external_body]
+    pub fn new(value: V, entry_info: TrioArc<EntryInfo<K>>) -> (r: Self) ensures r.value == value, r.info == entry_info { unimplemented!() }
+//@@ END
+//@@ SIG file=src/common/concurrent.rs owner=ValueEntry name=entry_info
+    #[verifier::external_body]
+    pub fn entry_info(&self) -> (r: &TrioArc<EntryInfo<K>>) ensures *r == self.info { unimplemented!() }
+//@@ END
+//@@ SIG file=src/common/concurrent.rs owner=ValueEntry name=policy_weight
+    #[verifier::external_body]
+    pub fn policy_weight(&self) -> (r: u32) ensures r == self.info@.sp_w() { unimplemented!() }
 //@@ END
 }
 impl<K, V> AccessTime for TrioArc<ValueEntry<K, V>> {
@@ -191,6 +244,29 @@ pub struct AtomicBool { x: u8 }
 impl AtomicBool { #[verifier::external_body] pub fn new(v: bool) -> Self { unimplemented!() } }
 impl Default for AtomicBool { #[verifier::external_body] fn default() -> Self { unimplemented!() } }
 impl Default for AtomicInstant { #[verifier::external_body] fn default() -> Self { unimplemented!() } }
+/// src/common/concurrent/atomic_time.rs (RwLock<Option<Instant>>): ASSUMED here; sequential meaning checked on the real code by
+/// the Kani harness `atomic_instant_roundtrip`. `sp_instant()` = what this call reads.
+impl AtomicInstant {
+    pub uninterp spec fn sp_instant(&self) -> Option<Instant>;
+    pub uninterp spec fn sp_wrote(&self, t: Instant) -> bool;
+//@@ SIG file=src/common/concurrent/atomic_time.rs owner=AtomicInstant name=instant
+    #[verifier::external_body]
+    pub fn instant(&self) -> (r: Option<Instant>) ensures r == self.sp_instant() { unimplemented!() }
+//@@ END
+//@@ SIG file=src/common/concurrent/atomic_time.rs owner=AtomicInstant name=is_set
+    #[verifier::external_body]
+    pub fn is_set(&self) -> (r: bool) ensures r == self.sp_instant().is_some() { unimplemented!() }
+//@@ END
+//@@ SIG file=src/common/concurrent/atomic_time.rs owner=AtomicInstant name=set_instant
+    #[verifier::external_body]
+    pub fn set_instant(&self, instant: Instant) ensures self.sp_wrote(instant) { unimplemented!() }
+//@@ END
+}
+impl<T: Copy> AtomicCell<T> {
+    pub uninterp spec fn sp_val(&self) -> T;
+    #[verifier::external_body]
+    pub fn load(&self) -> (r: T) ensures r == self.sp_val() { unimplemented!() }
+}
 #[verifier::external_body]
 #[verifier::reject_recursive_types(K)]
 pub struct Deques<K> { p: std::marker::PhantomData<K> }
@@ -219,6 +295,16 @@ pub mod dashmap {
         /// an empty map; the capacity hint is unobservable
         #[verifier::external_body]
         pub fn with_capacity_and_hasher(capacity: usize, hasher: S) -> Self { unimplemented!() }
+    }
+    /// lookups through `&self`: `sp_get(k)` = the binding THIS call finds (shared state)
+    impl<K, V, S> DashMap<std::sync::Arc<K>, super::TrioArc<super::ValueEntry<K, V>>, S> {
+        pub uninterp spec fn sp_get(&self, k: super::KeyId) -> Option<super::TrioArc<super::ValueEntry<K, V>>>;
+        #[verifier::external_body]
+        pub fn get<Q: ?Sized>(&self, key: &Q) -> (r: Option<super::CacheEntryRef<'_, K, V>>)
+            ensures match r { Some(e) => self.sp_get(super::kid(key)) == Some(e@), None => self.sp_get(super::kid(key)).is_none() }
+        { unimplemented!() }
+        #[verifier::external_body]
+        pub fn iter(&self) -> (r: super::DashMapIter<'_, K, V, S>) { unimplemented!() }
     }
 }
 pub mod crossbeam_channel {
@@ -464,41 +550,68 @@ impl<K, V, S: Clone> Inner<K, V, S> {
 }
 
 impl<K, V, S> Inner<K, V, S> {
-    /// the map content / watermark / clock value THIS call happens to read (shared state: uninterpreted functions of `&self`)
-    pub uninterp spec fn sp_get(&self, k: KeyId) -> Option<TrioArc<ValueEntry<K, V>>>;
-    pub uninterp spec fn sp_valid_after(&self) -> Option<Instant>;
+    /// the map content / watermark / counters THIS call happens to read: functions of the shared fields; the clock reading stays
+    /// an uninterpreted function of `&self`
+    pub open spec fn sp_get(&self, k: KeyId) -> Option<TrioArc<ValueEntry<K, V>>> { self.cache.sp_get(k) }
+    pub open spec fn sp_valid_after(&self) -> Option<Instant> { self.valid_after.sp_instant() }
+    pub open spec fn sp_entry_count(&self) -> u64 { self.entry_count.sp_val() }
+    pub open spec fn sp_weighted_size(&self) -> u64 { self.weighted_size.sp_val() }
     pub uninterp spec fn sp_now(&self) -> Instant;
     pub open spec fn cfg_ok(&self) -> bool {
         &&& (self.time_to_live.is_some() ==> dur_ns(self.time_to_live.unwrap()) <= max_dur_ns())
         &&& (self.time_to_idle.is_some() ==> dur_ns(self.time_to_idle.unwrap()) <= max_dur_ns())
     }
 
-    // ---- assumed: shared state behind `&self` ----
-//@@ SIG file=src/sync/base_cache.rs owner=Inner name=get
-    #[verifier::external_body]
-    pub fn get<Q>(&self, key: &Q) -> (r: Option<CacheEntryRef<'_, K, V>>)
-    where Arc<K>: Borrow<Q>, Q: Hash + Eq + ?Sized
-        ensures match r { Some(e) => self.sp_get(kid(key)) == Some(e@), None => self.sp_get(kid(key)).is_none() }
-    { unimplemented!() }
+//@@ FN file=src/sync/base_cache.rs owner=Inner name=get tags=C01
+    fn get<Q>(&self, key: &Q) -> /*@+*/(r:/*@-*/ Option<CacheEntryRef<'_, K, V>>/*@+*/)/*@-*/
+    where
+        Arc<K>: Borrow<Q>,
+        Q: Hash + Eq + ?Sized,
+        ensures match r { Some(e) => self.sp_get(kid(key)) == Some(e@), None => self.sp_get(kid(key)).is_none() } //@ [C01]
+    {
+        self.cache.get(key)
+    }
 //@@ END
-//@@ SIG file=src/sync/base_cache.rs owner=Inner name=valid_after
-    #[verifier::external_body]
-    pub fn valid_after(&self) -> (r: Option<Instant>) ensures r == self.sp_valid_after() { unimplemented!() }
+//@@ FN file=src/sync/base_cache.rs owner=Inner name=valid_after tags=C07
+    fn valid_after(&self) -> /*@+*/(r:/*@-*/ Option<Instant>/*@+*/)/*@-*/
+        ensures r == self.sp_valid_after() //@ [C07]
+    {
+        self.valid_after.instant()
+    }
+//@@ END
+//@@ FN file=src/sync/base_cache.rs owner=Inner name=has_valid_after tags=C07
+    fn has_valid_after(&self) -> /*@+*/(r:/*@-*/ bool/*@+*/)/*@-*/
+        ensures r == self.sp_valid_after().is_some() //@ [C07]
+    {
+        self.valid_after.is_set()
+    }
+//@@ END
+    /// C07: the watermark handed to the shared cell must be this call's clock reading, and it is stored
+//@@ FN file=src/sync/base_cache.rs owner=Inner name=set_valid_after tags=C07
+    fn set_valid_after(&self, timestamp: Instant)
+        requires timestamp == self.sp_now(), //@ [C07]
+        ensures self.valid_after.sp_wrote(timestamp) //@ [C07]
+    {
+        self.valid_after.set_instant(timestamp);
+    }
 //@@ END
 //@@ SIG file=src/sync/base_cache.rs owner=Inner name=current_time_from_expiration_clock
     #[verifier::external_body]
     pub fn current_time_from_expiration_clock(&self) -> (r: Instant) ensures r == self.sp_now() { unimplemented!() }
 //@@ END
-    /// counters published by the last maintenance run (`AtomicCell` loads): the value this call reads
-    pub uninterp spec fn sp_entry_count(&self) -> u64;
-    pub uninterp spec fn sp_weighted_size(&self) -> u64;
-//@@ SIG file=src/sync/base_cache.rs owner=Inner name=entry_count
-    #[verifier::external_body]
-    pub fn entry_count(&self) -> (r: u64) ensures r == self.sp_entry_count() { unimplemented!() }
+//@@ FN file=src/sync/base_cache.rs owner=Inner name=entry_count tags=C10
+    fn entry_count(&self) -> /*@+*/(r:/*@-*/ u64/*@+*/)/*@-*/
+        ensures r == self.sp_entry_count() //@ [C10]
+    {
+        self.entry_count.load()
+    }
 //@@ END
-//@@ SIG file=src/sync/base_cache.rs owner=Inner name=weighted_size
-    #[verifier::external_body]
-    pub fn weighted_size(&self) -> (r: u64) ensures r == self.sp_weighted_size() { unimplemented!() }
+//@@ FN file=src/sync/base_cache.rs owner=Inner name=weighted_size tags=C10
+    pub(crate) fn weighted_size(&self) -> /*@+*/(r:/*@-*/ u64/*@+*/)/*@-*/
+        ensures r == self.sp_weighted_size() //@ [C10]
+    {
+        self.weighted_size.load()
+    }
 //@@ END
     /// DashMap::remove through `&self`: hands out the binding this call found under the key (the one `sp_get` names), if any
 //@@ SIG file=src/sync/base_cache.rs owner=Inner name=remove_entry
@@ -506,13 +619,6 @@ impl<K, V, S> Inner<K, V, S> {
     pub fn remove_entry<Q>(&self, key: &Q) -> (r: Option<KvEntry<K, V>>)
     where Arc<K>: Borrow<Q>, Q: Hash + Eq + ?Sized
         ensures match r { Some(kv) => self.sp_get(kid(key)) == Some(kv.entry) && kid::<K>(&*kv.key) == kid(key), None => self.sp_get(kid(key)).is_none() }
-    { unimplemented!() }
-//@@ END
-    /// C07: the watermark handed to the shared cell must be this call's clock reading
-//@@ SIG file=src/sync/base_cache.rs owner=Inner name=set_valid_after
-    #[verifier::external_body]
-    pub fn set_valid_after(&self, timestamp: Instant)
-        requires timestamp == self.sp_now(), //@ [C07]
     { unimplemented!() }
 //@@ END
 
@@ -660,6 +766,51 @@ impl<K, V, S> BaseCache<K, V, S> {
 //@@ SIG file=src/sync/base_cache.rs owner=BaseCache name=current_time_from_expiration_clock
     #[verifier::external_body]
     pub(crate) fn current_time_from_expiration_clock(&self) -> (r: Instant) ensures r == self.inner.sp_now() { unimplemented!() }
+//@@ END
+
+//@@ FN file=src/sync/base_cache.rs owner=BaseCache name=new_value_entry tags=C01,C05,C06,C10
+    fn new_value_entry(
+        &self,
+        value: V,
+        timestamp: Instant,
+        policy_weight: u32,
+    ) -> /*@+*/(r:/*@-*/ TrioArc<ValueEntry<K, V>>/*@+*/)/*@-*/
+        // C01 / C05 / C06 / C10: a first insert carries the value, both stamps are the reading of the insert, the weight is the
+        // weigher's; it is dirty (its write record is not applied yet) and not admitted
+        ensures r@.value == value, r@.ta() == Some(timestamp), r@.tm() == Some(timestamp), r@.info@.sp_w() == policy_weight, //@ [C01,C05,C06,C10]
+            r@.dirty(), !r@.info@.sp_admitted(), //@ [C12,C10]
+    {
+        let info = TrioArc::new(EntryInfo::new(timestamp, policy_weight));
+        TrioArc::new(ValueEntry::new(value, info))
+    }
+//@@ END
+
+//@@ FN file=src/sync/base_cache.rs owner=BaseCache name=new_value_entry_from tags=C01,C05,C06,C10
+    fn new_value_entry_from(
+        &self,
+        value: V,
+        timestamp: Instant,
+        policy_weight: u32,
+        other: &ValueEntry<K, V>,
+    ) -> /*@+*/(r:/*@-*/ TrioArc<ValueEntry<K, V>>/*@+*/)/*@-*/
+        // an update: the new entry carries the new value and SHARES the bookkeeping record of the old one, into which the dirty
+        // flag, both stamps (C05 / C06: an update restarts both intervals, whatever the configuration) and the new weight (C10)
+        // have been stored
+        ensures r@.value == value, r@.info == other.info, //@ [C01,C11]
+            r@.info@.sp_wrote_dirty(true), //@ [C12,C11]
+            r@.info@.sp_wrote_ta(timestamp), //@ [C06,C03]
+            r@.info@.sp_wrote_tm(timestamp), //@ [C05,C07,C03]
+            r@.info@.sp_wrote_w(policy_weight), //@ [C10,C04]
+    {
+        let info = TrioArc::clone(other.entry_info());
+        // To prevent this updated ValueEntry from being evicted by an expiration policy,
+        // set the dirty flag to true. It will be reset to false when the write is applied.
+        info.set_dirty(true);
+        info.set_last_accessed(timestamp);
+        info.set_last_modified(timestamp);
+        info.set_policy_weight(policy_weight);
+        TrioArc::new(ValueEntry::new(value, info))
+    }
 //@@ END
 
 //@@ FN file=src/sync/base_cache.rs owner=BaseCache name=policy tags=C17
@@ -1181,10 +1332,11 @@ where
 //@@ END
 }
 impl<K, V, S> Inner<K, V, S> {
-    /// DashMap::iter through `&self`: ASSUMED
-//@@ SIG file=src/sync/base_cache.rs owner=Inner name=iter
-    #[verifier::external_body]
-    pub fn iter(&self) -> (r: DashMapIter<'_, K, V, S>) { unimplemented!() }
+//@@ FN file=src/sync/base_cache.rs owner=Inner name=iter tags=C01
+    fn iter(&self) -> /*@+*/(r:/*@-*/ DashMapIter<'_, K, V, S>/*@+*/)/*@-*/
+    {
+        self.cache.iter()
+    }
 //@@ END
 }
 impl<K, V, S> BaseCache<K, V, S> {
